@@ -406,6 +406,13 @@ func runC15(r *core.Run) {
 		}
 	}
 	evalSet([]uint64{0, 1<<63 - 1, 1 << 62})
+	// result-independence histories (H1/H2) of the time accessors of parsed values
+	independencePass(r, "C15", func(family, call string) bool {
+		if !containsAny(family, "Lease", "OfflineSignature", "RouterInfo", "RouterAddress", "Date") {
+			return false
+		}
+		return call == "" || containsAny(call, "Expir", "Time", "Date", "Published", "Newest", "Oldest")
+	})
 	r.Sample(map[string]any{"structure": "LeaseSet2", "published": 4294967295, "expires": 65535, "exact_expiration": 4295032830})
 	r.Sample(map[string]any{"lease_dates": []int{3, 1, 2}, "oldest": 1, "newest": 3})
 }
